@@ -5,7 +5,7 @@
 SRC=${1:-/tmp/seed}
 export GOPROXY=off
 unset GOFLAGS GOWORK
-for d in $SRC/C*/[abcdh]; do
+for d in $SRC/C*/[a-z]; do
   id=$(basename $(dirname $d)); x=$(basename $d); name=$id-$x
   [ -f $d/patch.diff ] || continue
   wt=/tmp/wt-verify-$name
